@@ -85,81 +85,109 @@ fn spec_point(d: &[u8], n: usize, want: usize) -> Option<(i16, i16, bool)> {
     Some((xs[want], ys[want], flags[want] & 1 != 0))
 }
 
-// @bound SimpleGlyph on 28 symbolic bytes, 1 contour, <= 3 points, no instructions: points() equals the spec decoding of flags (incl. REPEAT), short/same/long x and y deltas with wrapping accumulation; read_points_fast agrees; unwind 8
+// @bound SimpleGlyph on 22 symbolic bytes, 1 contour, <= 2 points, no instructions: point k (symbolic k) of points() equals the spec decoding of flags (incl. REPEAT), short/same/long x and y deltas with wrapping accumulation; unwind 7
 // @c20
 // @c01
 // @timeout 1200
 #[cfg_attr(kani, kani::proof)]
-#[cfg_attr(kani, kani::unwind(8))]
+#[cfg_attr(kani, kani::unwind(7))]
 pub fn c09_simple_glyph_points_match_spec() {
-    let buf: [u8; 28] = kani::any();
+    let buf: [u8; 22] = kani::any();
     let len: usize = kani::any();
-    kani::assume(len <= 28);
+    kani::assume(len <= 22);
     let Ok(g) = SimpleGlyph::read(FontData::new(&buf[..len])) else { return };
     kani::assume(g.number_of_contours() == 1 && g.instruction_length() == 0);
     let n = g.num_points();
-    kani::assume(n >= 1 && n <= 3);
-    assert!(n == g.end_pts_of_contours()[0].get() as usize + 1);
+    kani::assume(n >= 1 && n <= 2);
     let d = g.glyph_data();
     let mut it = g.points();
-    let mut i = 0;
-    let ok = spec_point(d, n, 0).is_some();
-    while i < 3 {
-        if i < n {
-            let got = it.next();
-            match spec_point(d, n, i) {
-                Some((x, y, on)) => {
-                    let p = got.expect("point present");
-                    assert!(p.x == x && p.y == y && p.on_curve == on);
-                }
-                None => assert!(got.is_none()),
+    let p0 = it.next();
+    let p1 = it.next();
+    let k: usize = kani::any();
+    kani::assume(k < n);
+    let got = if k == 0 { p0 } else { p1 };
+    match spec_point(d, n, k) {
+        Some((x, y, on)) => {
+            let p = got.expect("point present");
+            assert!(p.x == x && p.y == y && p.on_curve == on);
+            if n == 1 {
+                assert!(p1.is_none());
             }
+            kani::cover!(n == 2 && k == 1 && d[0] & 0x08 != 0, "second point through a repeat flag");
+            kani::cover!(n == 2 && k == 1 && d[0] & 0x12 == 0, "long x delta");
         }
-        i += 1;
-    }
-    if ok {
-        assert!(it.next().is_none());
-        // the buffer-based reader agrees
-        let mut pts = [Point::<i32>::default(); 3];
-        let mut fl = [PointFlags::default(); 3];
-        let r = g.read_points_fast(&mut pts[..n], &mut fl[..n]);
-        assert!(r.is_ok());
-        let k: usize = kani::any();
-        kani::assume(k < n);
-        let (x, y, on) = spec_point(d, n, k).unwrap();
-        assert!(pts[k].x == x as i32 && pts[k].y == y as i32 && fl[k].is_on_curve() == on);
-        kani::cover!(n == 3 && d[0] & 0x08 != 0, "repeat flag used");
-        kani::cover!(n == 3 && d[0] & 0x12 == 0, "long x delta");
+        None => assert!(p0.is_none()),
     }
 }
 
-// @bound SimpleGlyph on 24 ARBITRARY symbolic bytes: num_points / points() (first 3) / has_overlapping_contours / read_points_fast with matching buffers (<= 4 points) never panic; unwind 8
+// @bound SimpleGlyph on 24 symbolic bytes, 1 contour, <= 3 points: read_points_fast and points() agree point by point (symbolic index)
+// @c20 thorough
+// @c01 thorough
+// @tier thorough
+// @timeout 3000
+// @mem 30
+#[cfg_attr(kani, kani::proof)]
+#[cfg_attr(kani, kani::unwind(8))]
+pub fn c09_simple_glyph_fast_agrees_with_iter() {
+    let buf: [u8; 24] = kani::any();
+    let Ok(g) = SimpleGlyph::read(FontData::new(&buf)) else { return };
+    kani::assume(g.number_of_contours() == 1 && g.instruction_length() == 0);
+    let n = g.num_points();
+    kani::assume(n >= 1 && n <= 3);
+    let mut pts = [Point::<i32>::default(); 3];
+    let mut fl = [PointFlags::default(); 3];
+    let r = g.read_points_fast(&mut pts[..n], &mut fl[..n]);
+    let mut it = g.points();
+    let a = [it.next(), it.next(), it.next()];
+    if a[0].is_some() {
+        // the iterator accepted the glyph data: the buffer-based reader must agree
+        assert!(r.is_ok());
+        let k: usize = kani::any();
+        kani::assume(k < n);
+        let p = a[k].expect("n points");
+        assert!(pts[k].x == p.x as i32 && pts[k].y == p.y as i32 && fl[k].is_on_curve() == p.on_curve);
+        kani::cover!(n == 3 && k == 2, "third point");
+    }
+}
+
+// @bound SimpleGlyph on 19 ARBITRARY symbolic bytes (1 contour, no instructions, so 5 bytes of flag/coordinate data), exactly 3 points: read_points_fast with matching buffers never panics; mismatching buffers are rejected; unwind 7
+// @c20 thorough
+// @c01 thorough
+// @tier thorough
+// @timeout 3600
+// @mem 30
+#[cfg_attr(kani, kani::proof)]
+#[cfg_attr(kani, kani::unwind(7))]
+pub fn c09_simple_glyph_total() {
+    let buf: [u8; 19] = kani::any();
+    let Ok(g) = SimpleGlyph::read(FontData::new(&buf)) else { return };
+    kani::assume(g.number_of_contours() == 1 && g.instruction_length() == 0);
+    let n = g.num_points();
+    let _ = g.has_overlapping_contours();
+    kani::assume(n == 3);
+    let mut pts = [Point::<i32>::default(); 3];
+    let mut fl = [PointFlags::default(); 3];
+    let r = g.read_points_fast(&mut pts, &mut fl);
+    let m: usize = kani::any();
+    kani::assume(m < 3);
+    assert!(g.read_points_fast(&mut pts[..m], &mut fl[..m]).is_err());
+    kani::cover!(r.is_ok(), "three points decoded");
+}
+
+// @bound SimpleGlyph on 20 ARBITRARY symbolic bytes: points() first 3 items never panic; unwind 8
 // @c20
 // @c01
 // @timeout 1200
 #[cfg_attr(kani, kani::proof)]
 #[cfg_attr(kani, kani::unwind(8))]
-pub fn c09_simple_glyph_total() {
-    let buf: [u8; 24] = kani::any();
+pub fn c09_simple_glyph_iter_total() {
+    let buf: [u8; 20] = kani::any();
     let len: usize = kani::any();
-    kani::assume(len <= 24);
+    kani::assume(len <= 20);
     let Ok(g) = SimpleGlyph::read(FontData::new(&buf[..len])) else { return };
-    let n = g.num_points();
-    let _ = g.has_overlapping_contours();
     let mut it = g.points();
+    let a = it.next();
     let _ = it.next();
     let _ = it.next();
-    let _ = it.next();
-    if n <= 4 {
-        let mut pts = [Point::<i32>::default(); 4];
-        let mut fl = [PointFlags::default(); 4];
-        let _ = g.read_points_fast(&mut pts[..n], &mut fl[..n]);
-        let m: usize = kani::any();
-        kani::assume(m <= 4);
-        let r = g.read_points_fast(&mut pts[..m], &mut fl[..m]);
-        if m != n {
-            assert!(r.is_err());
-        }
-    }
-    kani::cover!(n == 4, "four points");
+    kani::cover!(a.is_some(), "a point");
 }
